@@ -2618,6 +2618,9 @@ class PiecewiseConvex:
     The PiecewiseConvex class creates an object of piecewise functions.
     """
 
+    __array_priority__ = 101
+    __array_ufunc__ = None
+
     def __init__(self, model, pieces, sign=1, add_sign=1):
 
         self.model = model
